@@ -174,6 +174,9 @@ def stmts(depth, width, top=True):
 
 
 HEAD = {"if": "if (a)", "while": "while (a)", "for": "for (;;)", "forx": "for (a = 0; a < b; a++)"}
+# multi-line conditions: style 'ml' splits the loop heads, style 'ml2' splits the if heads
+HEAD_ML = {"ml": {"forx": "for (a = 0;\n        a < b;\n        a++)", "while": "while (a &&\n        b)"},
+           "ml2": {"if": "if (a &&\n        b)"}}
 
 
 def render(node, style="kr", ind=0, unit="    "):
@@ -182,6 +185,8 @@ def render(node, style="kr", ind=0, unit="    "):
         return [unit * ind + render_one(node)]
     pad = unit * ind
     k = node[0]
+    if style in HEAD_ML and k in HEAD_ML[style]:
+        return head_body(HEAD_ML[style][k], node[1], style, ind, unit)
     if k in ("expr", "decl"):
         return [pad + node[1]]
     if k == "empty":
@@ -195,13 +200,15 @@ def render(node, style="kr", ind=0, unit="    "):
     if k == "ifelse":
         first = head_body("if (a)", node[1], style, ind, unit)
         second = head_body("else", node[2], style, ind, unit)
-        if node[1][0] == "braced" and style == "kr":
+        if style in HEAD_ML and "if" in HEAD_ML[style]:
+            first = head_body(HEAD_ML[style]["if"], node[1], style, ind, unit)
+        if node[1][0] == "braced" and style != "allman":
             first[-1] = first[-1] + " " + second[0].strip()
             return first + second[1:]
         return first + second
     if k == "do":
         lines = head_body("do", node[1], style, ind, unit)
-        if node[1][0] == "braced" and style == "kr":
+        if node[1][0] == "braced" and style != "allman":
             lines[-1] += " while (a);"
         else:
             lines.append(pad + "while (a);")
@@ -212,7 +219,7 @@ def render(node, style="kr", ind=0, unit="    "):
             out += render(x, style, ind + 1, unit)
         return out + [pad + "}"]
     if k == "switch":
-        out = [pad + "switch (a) {"] if style == "kr" else [pad + "switch (a)", pad + "{"]
+        out = [pad + "switch (a) {"] if style != "allman" else [pad + "switch (a)", pad + "{"]
         for lab, body in node[1]:
             out.append(pad + lab)
             for x in body:
@@ -225,7 +232,7 @@ def head_body(head, body, style, ind, unit):
     pad = unit * ind
     if body[0] == "bare":
         return [pad + head] + render(body[1], style, ind + 1, unit)
-    if style == "kr":
+    if style != "allman":
         out = [pad + head + " {"]
     else:
         out = [pad + head, pad + "{"]
